@@ -160,6 +160,11 @@ def _compare(ctx, op, cell, backend, got_kind, ref, a, b, s_in, tol, q):
         if any(not obs.finite(x) for x in ref):
             ctx.exclude("nonfinite_reference")
             return False
+        if opcheck.lossy_temporal(op.name, sysr, ref, (opcheck.parse_system(cell["sa"]), opcheck.parse_system(cell["sb"]) if cell.get("sb") else None)):
+            ctx.fail("result_system" + q, f"{op.name} {variant} [{backend}]: the result came back stored as {R.sysname(sysr)} "
+                     f"{opcheck.fmt(stv)}, which cannot hold its exact time component {opcheck.fmt(ref[3])} although an operand stores t; "
+                     f"a={opcheck.fmt(a)} b={opcheck.fmt(b) if b else None}", op=op.name, variant=variant, backend=backend)
+            return False
         if not R.representable(sysr, ref):
             ctx.exclude("result_not_representable")
             return False
